@@ -4,7 +4,7 @@
 
 use crate::prng::Rng;
 
-pub const TEMPLATES: [(&str, &str, usize); 13] = [
+pub const TEMPLATES: [(&str, &str, usize); 14] = [
     (
         "list-map-fold",
         r#"data List[A] { Nil, Cons(x: A, xs: List[A]) }
@@ -253,6 +253,22 @@ def find(n: i64, a: i64): Res[i64] { if n == 3 { Ok(a) } else { if n < 3 { Err }
 def wrap(n: i64): Res[Res[i64]] { if n < 2 { Err } else { if n < 6 { Ok(find(n, n * 11)) } else { Warn(find(n - 4, n), n) } } }
 "#,
         2,
+    ),
+    (
+        "wrapping-difference",
+        r#"def lt(a: i64, b: i64): i64 { if a - b < 0 { 1 } else { 2 } }
+def le(a: i64, b: i64): i64 { if a - b <= 0 { 1 } else { 2 } }
+def gt(a: i64, b: i64): i64 { if a - b > 0 { 1 } else { 2 } }
+def ge(a: i64, b: i64): i64 { if 0 <= (a - b) { 1 } else { 2 } }
+def main(n: i64, a: i64, b: i64): i64 {
+  print_i64(lt(a, b)); print_i64(le(a, b)); print_i64(gt(a, b)); println_i64(ge(a, b));
+  print_i64(lt(9223372036854775807, (0 - n) - 1)); print_i64(le(9223372036854775807, (0 - n) - 1));
+  print_i64(gt(0 - 9223372036854775807, n + 2)); println_i64(ge(0 - 9223372036854775807, n + 2));
+  println_i64(lt(a * 4611686018427387904, b * 4611686018427387904));
+  (9223372036854775807 - ((0 - n) - 1)) % 251
+}
+"#,
+        3,
     ),
 ];
 
